@@ -191,6 +191,10 @@ func runC11(a *A) {
 		}
 	})
 	a.Rule("shape/keyword-case", 3, func() { a.ruleKeywordCase() })
+	// the result of Parse is a function of the statement alone: nothing reachable from it keeps state
+	// between calls (a cache of parsed statements keyed by a normalised text hands one statement's
+	// clauses to another)
+	a.Rule("ownmap/parser-keeps-no-state", 1, func() { a.ruleParserKeepsNoState() })
 	a.Rule("flow/no-state-between-list-items", 12, func() { a.ruleNoStateBetweenListItems("rsql") })
 	a.Rule("tables/clause-terminators", 12, func() { a.ruleClauseTerminators() })
 	a.Rule("term/caps-scale-with-input", 5, func() { a.ruleCapsScaleWithInput() })
@@ -828,4 +832,117 @@ func (a *A) ruleAccumulatedTextConsumed() int {
 		})
 	}
 	return n
+}
+
+// ruleParserKeepsNoState: the result of Parse is a function of the statement text alone. Package
+// rsql may keep state between calls only in the form of a memo keyed by the statement text itself:
+// every run-time write to a package-level variable of rsql is (a) an insertion into a map / sync.Map
+// whose key is a string parameter of the writing function, unmodified (two different statements can
+// then never share an entry), or (b) the replacement of such a container by an empty one. A key
+// computed from the text (layout collapsed, case folded) hands one statement's clauses to another
+// whenever the normalisation is not injective - whitespace inside a literal is data.
+func (a *A) ruleParserKeepsNoState() {
+	pkg := a.Pkg("rsql")
+	n := 0
+	var hasParam func(v ssa.Value, d int) bool
+	hasParam = func(v ssa.Value, d int) bool {
+		if mi, ok := v.(*ssa.MakeInterface); ok {
+			v = mi.X
+		}
+		if p, ok := v.(*ssa.Parameter); ok {
+			return isStringType(p.Type())
+		}
+		if bo, ok := v.(*ssa.BinOp); ok && bo.Op == token.ADD && d < 4 {
+			return hasParam(bo.X, d+1) || hasParam(bo.Y, d+1)
+		}
+		return false
+	}
+	for _, fn := range a.ModFuncs {
+		if fn.Blocks == nil || fn.Name() == "init" || strings.HasPrefix(fn.Name(), "init#") {
+			continue
+		}
+		allInstrs(fn, func(in ssa.Instruction) {
+			var g *ssa.Global
+			ok, what := true, ""
+			switch x := in.(type) {
+			case *ssa.Store:
+				g = rootGlobal(x.Addr)
+				if g == nil || g.Pkg != pkg {
+					return
+				}
+				switch v := x.Val.(type) {
+				case *ssa.MakeMap:
+				case *ssa.Const:
+					if v.Value != nil {
+						ok, what = false, "assigned "+TermOf(x.Val, nil).String()
+					}
+				default:
+					ok, what = false, "assigned "+TermOf(x.Val, nil).String()
+				}
+			case *ssa.MapUpdate:
+				g = rootGlobal(x.Map)
+				if g == nil || g.Pkg != pkg {
+					return
+				}
+				if !hasParam(x.Key, 0) {
+					ok, what = false, "a map entry is stored under the key "+TermOf(x.Key, nil).String()+", which is computed from the statement instead of being the statement"
+				}
+			case ssa.CallInstruction:
+				cc := x.Common()
+				cal := cc.StaticCallee()
+				if cal == nil || cal.Signature.Recv() == nil || len(cc.Args) == 0 {
+					return
+				}
+				g = rootGlobal(cc.Args[0])
+				if g == nil || g.Pkg != pkg {
+					return
+				}
+				switch cal.Name() {
+				case "Store", "LoadOrStore", "Swap", "CompareAndSwap":
+					if len(cc.Args) < 2 || !hasParam(cc.Args[1], 0) {
+						ok, what = false, "an entry is stored under a key that is computed from the statement instead of being the statement"
+					}
+				case "Delete", "LoadAndDelete", "Clear", "Range", "Load", "Lock", "Unlock", "RLock", "RUnlock", "Do", "Get":
+					return
+				case "Put", "Add", "Set":
+					ok, what = false, "mutated through "+cal.Name()
+				default:
+					return
+				}
+			default:
+				return
+			}
+			n++
+			a.Check(ok, fmt.Sprintf("global:rsql.%s@%s", g.Name(), fname(fn)), in.Pos(), "state kept between parses is a memo keyed by the statement text itself (or its reset)",
+				fmt.Sprintf("package-level variable rsql.%s is written at run time by %s: %s - parsing one statement can change what another one parses to", g.Name(), fname(fn), what))
+		})
+	}
+	if n == 0 {
+		a.Ok("global:rsql", token.NoPos, "no package-level variable of rsql is written after initialisation").Trivial = true
+	}
+}
+
+// rootGlobal: the package-level variable an address or a value loaded from it is rooted in
+// (g, g.f, g.f[i], *g ...), or nil.
+func rootGlobal(v ssa.Value) *ssa.Global {
+	for i := 0; i < 12; i++ {
+		switch x := v.(type) {
+		case *ssa.Global:
+			return x
+		case *ssa.FieldAddr:
+			v = x.X
+		case *ssa.IndexAddr:
+			v = x.X
+		case *ssa.UnOp:
+			if x.Op != token.MUL {
+				return nil
+			}
+			v = x.X
+		case *ssa.Field:
+			v = x.X
+		default:
+			return nil
+		}
+	}
+	return nil
 }
